@@ -1,7 +1,8 @@
 ------------------------------ MODULE Gen_C07 ------------------------------
 EXTENDS Chords, TLC, Json, IOUtils, SequencesExt
 CONSTANTS RootSet, WithTriples
-Roots == IF RootSet = "N21" THEN N21 ELSE N35
+\* quick: all roots with at most one accidental and four of the fourteen double-accidental roots; thorough: all 35
+Roots == IF RootSet = "N21" THEN N21 \cup {<<"B","#","#">>, <<"C","b","b">>, <<"G","#","#">>, <<"F","b","b">>} ELSE N35
 Shs == DocumentedShorthands \ {"5"}
 ChordCases == {[kind |-> "chord", sh |-> s, root |-> r, k |-> k,
                 base |-> RefChord(Meaning(s), r), chord |-> Rotate(RefChord(Meaning(s), r), k)] :
